@@ -272,7 +272,9 @@ func (w *world) makeFn(s *sigDesc) (impl any, err error) {
 
 // verifNs: helpers callable from programs.
 func (w *world) verifNs() *eval.Ns {
-	pr, pw, _ := os.Pipe()
+	// file values that never block: reads hit end of file at once
+	pr, _ := os.Open(os.DevNull)
+	pw, _ := os.OpenFile(os.DevNull, os.O_WRONLY, 0)
 	return eval.BuildNsNamed("verif").AddVar("pipe", vars.NewReadOnly(vals.Pipe{R: pr, W: pw})).AddGoFns(map[string]any{
 		// sink reads a bounded amount of input and returns, so that upstream
 		// writers see "reader gone" instead of producing unbounded output.
